@@ -156,6 +156,27 @@ CLAIMS = {
         "engine flow analysis / CFG",
         "DESIGN.md section 4 C09",
     ),
+    "C06": (
+        "Decides that every documented declaration and dependency form (identifier / identifier with _ and digits / dotted names; refs [N], "
+        "N, alias; arrows -->, ->, <--, <-, -text->, <-text-) is in the language of the regular expressions reconstructed from the source by "
+        "constant folding, with the named groups binding name / alias / dependor / dependee as intended (decided on the patterns' sre parse "
+        "trees by the checker's own interpreter, cross-validated against re on every run); per-component merging accumulates; aliases are "
+        "resolved on both sides and the component set collects declared names, keys and values; missing tags raise. Does NOT decide arbitrary "
+        "generated diagrams or forms outside the documented subset (listed as observations).",
+        "constant folding of patterns + regex-language membership with group capture on the sre parse tree + merge/flow lints",
+        "re._parser.parse gives the pattern's AST; checker's regex interpreter (cross-validated each run)",
+        "DESIGN.md section 4 C06",
+    ),
+    "C07": (
+        "Decides the diagram-rule mechanism structurally: the converter emits, per dependency key, one should_only()/should() import rule over "
+        "all its targets (mode by the constructor flag) and, for every component, one should_not rule over all components minus itself minus "
+        "its targets iff non-empty; the multi applier evaluates every rule, collects exactly AssertionError messages and raises their join "
+        "after the loop; the base-module prefix is applied to component set, keys and values (identity without prefix) and every pipeline "
+        "stage consumes its predecessor. Equivalence with pairwise conformance on all graphs relies on C01 for each generated rule.",
+        "fluent-chain extraction + set-algebra shape check + tag-flow (prefix coverage) + dominance of the aggregated raise",
+        "C01 (meaning of generated module rules); engine CFG / flow",
+        "DESIGN.md section 4 C07",
+    ),
 }
 
 NOT_BUILT_REASON = "static check not built yet in this session (planned rules: DESIGN.md section 4); no claim is made"
